@@ -958,7 +958,7 @@ package edwards25519
 //@   loop 2 var i
 //@   loop 2 opt cut
 //@   loop 2 modifies *tmp1, *tmp2, *v, *multA, *multB
-//@   loop 2 invariant [acc] pt(tmp2) == gadd(smul(sum t in i + 1..256: aNaf[t] * 2^(t - i - 1), pt(A)), smul(sum t in i + 1..256: bNaf[t] * 2^(t - i - 1), gbase()))
+//@   loop 2 invariant [acc] pt(tmp2) == gadd(smul(sum t in i + 1..256: aNaf[t] * 2^(t - i - 1), pt(old(A))), smul(sum t in i + 1..256: bNaf[t] * 2^(t - i - 1), gbase()))
 //@   loop 2 invariant [valid] gvalid(tmp2)
 //@   ensures [receiver] result == v
 //@   ensures [valid] gvalid(v)
@@ -1003,7 +1003,7 @@ package edwards25519
 //@   loop 3 var i
 //@   loop 3 opt cut
 //@   loop 3 modifies *tmp1, *tmp2, *v, *multiple
-//@   loop 3 invariant [acc] pt(tmp2) == (gsum j in 0..len(points): smul(sum t in i + 1..256: nafs[j][t] * 2^(t - i - 1), pt(points[j])))
+//@   loop 3 invariant [acc] pt(tmp2) == (gsum j in 0..len(points): smul(sum t in i + 1..256: nafs[j][t] * 2^(t - i - 1), pt(old(points[j]))))
 //@   loop 3 invariant [valid] gvalid(tmp2)
 //@   ensures [receiver] result == v
 //@   ensures [valid] gvalid(v)
